@@ -213,6 +213,64 @@ macro_rules! two_steps {
         }
     };
 }
+// storage_new: ChainStorage::new itself (index through the LevelDB model, the directory scan replaced by
+// a stub that finds blk files 0 and 1): whatever the range, every blk file that is present and named by a
+// record of a height to be delivered is in the storage's file map under its own number, and the record of
+// that height is the indexed one. Catches construction-time pruning/renumbering of the file map.
+macro_rules! storage_new {
+    ($name:ident, $t:expr, [$f0:expr, $f1:expr, $f2:expr, $f3:expr]) => {
+        #[kani::proof]
+        #[kani::unwind(8)]
+        #[kani::stub(crate::blockchain::parser::blkfile::BlkFile::from_path, crate::blockchain::parser::blkfile::vk_blkfile_c03::stub_from_path)]
+        fn $name() {
+            const T: usize = $t;
+            const FILE: [u8; 4] = [$f0, $f1, $f2, $f3];
+            let pos: [u8; 4] = [10, 11, 12, 13];
+            let mut i = 0;
+            while i <= T { ix::put_rec(i, i as u8, FILE[i], pos[i]); i += 1; }
+            ix::set_n_rec(T + 1);
+            let start: u64 = kani::any();
+            let has_end: bool = kani::any();
+            let e: u64 = kani::any();
+            kani::assume(!has_end || start < e);
+            let options = crate::ParserOptions {
+                callback: Box::new(ix::NullCb), coin: ix::mk_coin(0, None), verify: false,
+                blockchain_dir: std::path::PathBuf::new(), log_level_filter: log::LevelFilter::Off,
+                range: crate::BlockHeightRange { start, end: if has_end { Some(e) } else { None } },
+            };
+            let cs = match ChainStorage::new(&options) {
+                Ok(x) => x,
+                Err(er) => { core::mem::forget(er); assert!(false, "C03:storage_builds"); return; }
+            };
+            let want_max = if has_end && e < T as u64 { e } else { T as u64 };
+            let mut h = 0usize;
+            while h <= T {
+                if (h as u64) >= start && (h as u64) <= want_max && FILE[h] < 2 {
+                    match cs.blk_files.get(&(FILE[h] as u64)) {
+                        Some(b) => { assert!(hooks::file_id(&b.path) == FILE[h] as u64, "C03:file_number_maps_to_its_own_blk_file"); }
+                        None => { assert!(false, "C03:blk_file_of_in_range_record_is_kept"); }
+                    }
+                    match cs.chain_index.get(h as u64) {
+                        Some(r) => { assert!(r.blk_index as u64 == FILE[h] as u64 && r.data_offset as u64 == pos[h] as u64, "C03:in_range_record_names_its_file_and_offset"); }
+                        None => { assert!(false, "C02:in_range_height_is_indexed"); }
+                    }
+                }
+                h += 1;
+            }
+            kani::cover!(start as usize == T, "start at tip");
+            kani::cover!(has_end && e == T as u64, "end at tip");
+            kani::cover!(!has_end && start == 0, "whole chain");
+            kani::cover!(start > 0 && has_end && e < T as u64, "inner range");
+            core::mem::forget(cs);
+            core::mem::forget(options);
+        }
+    };
+}
+//@ id=C03,C02 tier=quick name=c03_storage_new_t2 timeout=1500 role=storage_new bound=tip-2,one-block-per-file-0,1,0;dir-scan-stubbed(files-0,1);start/end-full-width-u64 fn=ChainStorage::new,ChainIndex::new,get_block_index
+storage_new!(c03_storage_new_t2, 2, [0, 1, 0, 0]);
+//@ id=C03,C02 tier=thorough name=c03_storage_new_t3 timeout=3000 role=storage_new bound=tip-3,files-0,0,1,2(file-2-absent);dir-scan-stubbed(files-0,1);start/end-full-width-u64
+storage_new!(c03_storage_new_t3, 3, [0, 0, 1, 2]);
+
 //@ id=C17,C03 tier=quick name=c17_steps_0101_1_2 timeout=900 role=two_steps bound=files-0,1,0,1;get_block(1)-then-get_block(2):file-0-must-close-after-a-block-of-file-1 fn=ChainStorage::get_block,BlkFile::open,BlkFile::close
 two_steps!(c17_steps_0101_1_2, [0, 1, 0, 1], 1, 2);
 //@ id=C17,C03 tier=quick name=c17_steps_0101_2_3 timeout=900 role=two_steps bound=files-0,1,0,1;get_block(2)-then-get_block(3):both-files-closed
